@@ -183,6 +183,16 @@ func (mc *Chain) processVerifyBlock(ctx context.Context, b *block.Block) error {
 		return nil
 	}
 
+	// tickets attached to a proposed block are not covered by the block hash and were not
+	// verified by anyone: keep them only if they are distinct valid tickets of this round's miners
+	if attached := b.GetVerificationTickets(); len(attached) > 0 {
+		if err := mc.verifyAttachedTickets(ctx, b, attached); err != nil {
+			logging.Logger.Error("verify block - ignoring attached verification tickets",
+				zap.Int64("round", b.Round), zap.String("block", b.Hash), zap.Error(err))
+			b.VerificationTickets = nil
+		}
+	}
+
 	// get previous block notarization tickets, and update local prev block if exist
 	if b.Round > 1 {
 		go func() {
@@ -272,6 +282,22 @@ func (mc *Chain) processVerifyBlock(ctx context.Context, b *block.Block) error {
 
 	mc.checkBlockNotarization(ctx, mr, b, true)
 	return nil
+}
+
+// verifyAttachedTickets checks that the tickets carried by a received block come from
+// distinct miners of the block's round and are valid signatures of the block hash.
+func (mc *Chain) verifyAttachedTickets(ctx context.Context, b *block.Block, vts []*block.VerificationTicket) error {
+	seen := make(map[string]struct{}, len(vts))
+	for _, vt := range vts {
+		if vt == nil {
+			return errors.New("null verification ticket")
+		}
+		if _, ok := seen[vt.VerifierID]; ok {
+			return fmt.Errorf("duplicate verification ticket of %v", vt.VerifierID)
+		}
+		seen[vt.VerifierID] = struct{}{}
+	}
+	return mc.VerifyTickets(ctx, b.Hash, vts, b.Round)
 }
 
 // handleVerificationTicketMessage - handles the verification ticket message.
